@@ -9,7 +9,8 @@
 (* the read set still equals the undamaged answers (same), or the damage   *)
 (* is reported (err; a panic or abort reports it too - it serves nothing). *)
 (* `diff` - a different value, a different set of keys, different          *)
-(* visibility - is never allowed.                                          *)
+(* visibility, or a reader that spins for ever (CPU limit of the trial) -  *)
+(* is never allowed.                                                       *)
 (***************************************************************************)
 EXTENDS Naturals, Sequences, TLC, Json, IOUtils
 
